@@ -261,11 +261,15 @@ def run(ctx):
         deep = params["asyncio"] == "late" and params["trio"] == "none"
         pieces = specs if not (deep and ctx.quick) else deep_specs
         pieces.append({
-            "module": "checks.c02", "params": params, "bound": 2 if deep else (bound if in_core(params) else 1),
+            "module": "checks.c02", "params": params,
+            # thorough: two deviations for the quick-tier scenarios without the blocked
+            # thread (it only adds a waiting thread); measured: the full set takes > 90 min
+            "bound": 2 if deep else (
+                bound if in_core(params) and (ctx.quick or not params["blocked_thread"]) else 1),
             "opts": {"spin_time": 0.05 if spinning else 0.0, "time_horizon": 40.0,
                      "drain": 4.0, "max_points": 8000, "free_switch_cost": 1,
                      "time_jump_cost": None if ctx.quick else 1},
-            "budget": (8000 if deep else 3000) if ctx.quick else 30000,
+            "budget": (8000 if deep else 3000) if ctx.quick else 12000,
         })
     for spec in deep_specs:
         specs += H.split(spec, 8)
